@@ -49,8 +49,16 @@ package keystore
 //@   site[key_file_path] call:Join : len(arg0) == 2 && arg0[0] == ks.dir && arg0[1] == encName(old(name))
 //@   ensures[empty_name_refused] name == "" ==> err != nil && !called("call:Remove#0")
 //@   site[removes_the_key_file] call:Remove : arg0 == keyFile(ks, name)
+// a file name stands for a key only if it carries the key-file prefix: anything else in the directory
+// (also a name that happens to be valid base32) is not a key
+//@ func ext strings.HasPrefix
+//@   pure
 //@ func decode
-//@   assumed
+//@   prop C40
+//@   arith int-assumed
+//@   modifies all
+//@   ensures[only_prefixed_names_are_keys] err == nil ==> called("call:HasPrefix#0") && res("call:HasPrefix#0", 0)
+//@   site[asks_about_this_name_and_the_key_prefix] call:HasPrefix : arg0 == name && arg1 == keyFilenamePrefix
 //@ func (*FSKeystore).List
 //@   prop C40
 //@   arith int-assumed
